@@ -17,6 +17,7 @@ def install_all(reg):
     succession_diagram._install_skip4(reg)
     from . import attractors
     attractors.install(reg)
+    attractors.install_sets(reg)
     algorithms.install(reg)
     algorithms.install_skipnode(reg)
     algorithms.install_target(reg)
